@@ -518,6 +518,60 @@ impl SocketTable {
     }
 }
 
+#[cfg(turmoil_verif)]
+impl SocketTable {
+    /// Verification hook (read-only): canonical dump of the table. Wakers are
+    /// printed as counts, never as addresses.
+    pub(crate) fn verif_dump(&self, out: &mut String) {
+        use std::fmt::Write;
+        let _ = write!(out, "next_id={} ports={:?}\n", self.next_id, self.ports);
+        for (fd, s) in &self.sockets {
+            let _ = write!(
+                out,
+                "sock {:?} {:?} {:?} bound={:?} peer={:?} bc={} ttl={} nd={} rq={:?} rw={} ww={} cw={} closed={} ",
+                fd,
+                s.domain,
+                s.ty,
+                s.bound,
+                s.peer,
+                s.broadcast,
+                s.ttl,
+                s.tcp_nodelay,
+                s.recv_queue,
+                s.read_wakers.len(),
+                s.write_wakers.len(),
+                s.connect_waker.is_some(),
+                s.fd_closed
+            );
+            match &s.listen {
+                Some(l) => {
+                    let _ = write!(out, "listen(b={} ready={:?} aw={}) ", l.backlog, l.ready, l.accept_wakers.len());
+                }
+                None => out.push_str("listen- "),
+            }
+            let _ = writeln!(out, "tcb={:?}", s.tcb);
+        }
+        let _ = writeln!(out, "bindings={:?}", self.bindings);
+        let _ = writeln!(out, "connections={:?}", self.connections);
+    }
+
+    /// Verification hook (read-only): (socket entries, binding-index fd entries,
+    /// connection-index entries).
+    pub(crate) fn verif_counts(&self) -> (usize, usize, usize) {
+        (
+            self.sockets.len(),
+            self.bindings.values().map(Vec::len).sum(),
+            self.connections.len(),
+        )
+    }
+
+    /// Verification hook: shrink the ephemeral range so wrap-around and
+    /// exhaustion are reachable with a handful of sockets.
+    pub(crate) fn verif_set_ephemeral_range(&mut self, range: RangeInclusive<u16>) {
+        self.ports = PortAllocator::new(range);
+    }
+}
+
 impl Default for SocketTable {
     fn default() -> Self {
         Self::new()
